@@ -596,10 +596,14 @@ impl DcpsDomainParticipant {
                 gap_submessage.writer_id(),
             );
             if let Some(writer_proxy) = dr.transport_reader.matched_writer_lookup(writer_guid) {
-                // irrelevant_change_set only keeps the maximum: the range gap_start..base is
-                // marked by its last element instead of one call per (attacker chosen) number
+                // The range gap_start..base is marked in one step (not one call per attacker
+                // chosen number) and only if it is contiguous with what is already accounted for;
+                // the same holds for each member of the bitmap
                 if gap_submessage.gap_start() < gap_submessage.gap_list().base() {
-                    writer_proxy.irrelevant_change_set(gap_submessage.gap_list().base() - 1)
+                    writer_proxy.irrelevant_change_range(
+                        gap_submessage.gap_start(),
+                        gap_submessage.gap_list().base() - 1,
+                    )
                 }
 
                 for seq_num in gap_submessage.gap_list().set() {
